@@ -532,6 +532,42 @@ func runC02(res *Result, d *Driver, tier string, seed uint64) {
 			res.Mismatch(Mismatch{Kind: "oracle", What: "traced " + sc.name + ": the policy was not asked about (class, kernel-resolved path) of the call's (dirfd, pathname) (C02_dispatch_matches_abi / C02_dirfd_decode / C02_resolve_*)", Input: fmt.Sprintf("links=%v cwd=%s script=%s", f.links, work, script), Impl: strings.Join(got, " | "), Model: strings.Join(exp, " | "), Oracle: "violates"})
 		}
 	}
+	// the tracee changes its working directory between two relative names: each must be resolved against the directory
+	// the tracee is in at that moment (nothing about a process may be remembered across trapped calls)
+	nCd := 12
+	if tier == "thorough" {
+		nCd = 300
+	}
+	for i := 0; i < nCd; i++ {
+		dir2 := f.dirs[rng.Intn(len(f.dirs))]
+		rel1, rel2 := f.validPath(rng, work), f.validPath(rng, dir2)
+		if strings.ContainsAny(rel1+rel2, " ;") || strings.HasPrefix(rel1, "/") || strings.HasPrefix(rel2, "/") {
+			continue
+		}
+		script := fmt.Sprintf("sys 257 fdcwd64 s:%s 0 0; sys 80 s:%s; sys 257 fdcwd32 s:%s 0 0; exit 0", rel1, dir2, rel2)
+		nAsked := 0
+		h := &c02Rec{allow: func(class, p string) bool { nAsked++; return nAsked <= len(baseline) }}
+		r, out := runPtraceProbe(RunSpec{Script: script, Filter: tracingFilter(), Handler: h, WorkDir: work})
+		res.Case("chdir "+script, true, "traced-chdir")
+		got := stripPrefixCalls(h.calls, baseline)
+		d2H, err := os.Open(dir2)
+		if err != nil {
+			continue
+		}
+		w1, ok1 := kernelResolve(int(workH.Fd()), rel1)
+		w2, ok2 := kernelResolve(int(d2H.Fd()), rel2)
+		d2H.Close()
+		okAll := r.Status == runner.StatusNormal && len(got) == 2 && strings.Contains(out, "sys 80 = 0 0")
+		if okAll && ok1 && got[0] != "R "+w1 {
+			okAll = false
+		}
+		if okAll && ok2 && got[1] != "R "+w2 {
+			okAll = false
+		}
+		if !okAll {
+			res.Mismatch(Mismatch{Kind: "oracle", What: "a relative name after chdir must be resolved against the tracee's CURRENT directory (C02: kernel's resolution of the (AT_FDCWD, name) pair)", Input: fmt.Sprintf("links=%v cwd=%s script=%s", f.links, work, script), Impl: strings.Join(got, " | ") + " " + fmt.Sprint(r.Status), Model: fmt.Sprintf("R %s | R %s", w1, w2), Oracle: "violates"})
+		}
+	}
 	// /proc/self aliases in a traced run: the policy must see the tracee's own objects
 	for _, c := range []struct{ path, want string }{
 		{"/proc/self/cwd/../a/f", filepath.Join(f.root, "a", "f")},
